@@ -40,7 +40,7 @@ func (c12) Batches(tier string, seed uint64) []core.Batch {
 }
 
 func (c12) Mandatory(tier string) []string {
-	m := []string{"stream:writer", "stream:reader", "stream:single-writer", "stream:single-reader", "stream:zero-length-chunk", "stream:unknown-algorithm-rejected", "stream:subset-size-0",
+	m := []string{"stream:writer", "stream:reader", "stream:single-writer", "stream:single-reader", "stream:source-data+EOF", "stream:source-onebyte", "stream:source-chunks", "stream:zero-length-chunk", "stream:unknown-algorithm-rejected", "stream:subset-size-0",
 		"stream:subset-size-4", "stream:repeated-algorithm", "stream:len-0", "stream:len>=4096",
 		"prov:best-sha256", "prov:best-sha512", "prov:best-both", "prov:dsc-sha256", "prov:sources-sha256", "prov:dsc-md5", "prov:dsc-sha1"}
 	for _, a := range c12Algos {
@@ -184,9 +184,15 @@ func (p c12) stream(c *core.C, cs c12Stream) {
 		check("NewHasherWriters", hs, cs.Algos, false)
 		c.Cover("stream:writer")
 	}
-	// readers
-	{
-		src := &chunkReader{s: string(data), r: core.NewRand(cs.Seed, "src")}
+	// readers, over sources that deliver the bytes in different ways (incl. the
+	// last bytes together with io.EOF)
+	srcKinds := []string{"chunks", "data+EOF", "string", "half"}
+	if len(data) <= 3000 {
+		srcKinds = append(srcKinds, "onebyte")
+	}
+	for _, sk := range srcKinds {
+		src := mkReader(sk, string(data), cs.Seed)
+		c.Cover("stream:source-" + sk)
 		rd, hs, err := hashio.NewHasherReaders(cs.Algos, src)
 		if err != nil {
 			c.Failf("NewHasherReaders(%v) failed: %v", cs.Algos, err)
@@ -208,7 +214,7 @@ func (p c12) stream(c *core.C, cs c12Stream) {
 		if !bytes.Equal(got, data) {
 			c.Failf("hashing reader altered or lost bytes: %d in, %d out", len(data), len(got))
 		}
-		check("NewHasherReaders", hs, cs.Algos, false)
+		check("NewHasherReaders over a "+sk+" source", hs, cs.Algos, false)
 		c.Cover("stream:reader")
 	}
 	// single-algorithm constructors
@@ -226,7 +232,7 @@ func (p c12) stream(c *core.C, cs c12Stream) {
 		}
 		check("NewHasherWriter", []*hashio.Hasher{h}, []string{a}, false)
 		c.Cover("stream:single-writer")
-		rd, h2, err := hashio.NewHasherReader(a, bytes.NewReader(data))
+		rd, h2, err := hashio.NewHasherReader(a, mkReader([]string{"data+EOF", "string", "chunks"}[cs.Len%3], string(data), cs.Seed))
 		if err != nil {
 			c.Failf("NewHasherReader(%s): %v", a, err)
 			return
